@@ -136,7 +136,7 @@ def wakeSpec : List Val → List Event × List Val × Ctl
             ([.ld futexL v 0, .st futexL (.int 0) 0, .ext "futex_noasync" wakeArgs (.int r), .ext "errno" [] e,
               .ext "urcu_die" [e] d], rest4, .normal)
         else ([.ld futexL v 0, .st futexL (.int 0) 0, .ext "futex_noasync" wakeArgs (.int r)], rest2, .normal)
-      | .ptr _ :: _ => ([], [], .fuel)   -- excluded by `IntInp`
+      | .ptr _ :: _ => ([.ld futexL v 0, .st futexL (.int 0) 0], [], .fuel)   -- excluded by `IntInp` (`futex()` returns an int)
     else ([.ld futexL v 0], rest, .normal)
 
 theorem wakeSpec_ctl (inp : List Val) (hi : IntInp inp) : (wakeSpec inp).2.2 = .normal ∨ (wakeSpec inp).2.2 = .blocked := by
@@ -306,5 +306,249 @@ theorem defer_exec {fuel : Nat} {env : Env} {r : Except String Out} (f p last : 
       have e2 : (head : Int) + 1 + 1 = head + 2 := by omega
       rcases wakeSpec_ctl rest hi with hc | hc <;>
         simp [IsOut, stores, storesPriv, dq, slot, hc, e2] <;> congr
+
+/-- `_defer_rcu` preempted at its first shared access (the load of `tail`): no event -/
+theorem defer_exec_nil {fuel : Nat} {env : Env} (head : Val) (hh : env.priv (.field dq "head") = some head) :
+    ∃ out, exec fuel Gen.Src.«_defer_rcu» env [] = .ok out ∧ out.events = [] ∧ out.ctl = .blocked := by
+  simp only [dq] at hh
+  exec_simp [Gen.Src.«_defer_rcu», hh]
+
+/-! ## `rcu_defer_barrier_queue` -/
+
+/-- an oracle value as a machine word -/
+def vw : Val → BitVec 64
+  | .int n => BitVec.ofNat 64 n.toNat
+  | .ptr _ => 0#64
+
+@[simp] theorem vw_wv (w : BitVec 64) : vw (wv w) = w := by
+  simp [vw, wv]
+
+/-- every oracle value is a machine word (ring words, `tail`; the value "returned" by a callback is not used) -/
+def WordInp (inp : List Val) : Prop := ∀ v ∈ inp, ∃ w : BitVec 64, v = wv w
+
+/-- `uatomic_load(&queue->q[i & MASK])` returning `v` -/
+def ldq (base : Loc) (i : Nat) (v : Val) : Event := .ld (slot base i) v 0
+/-- `fct(p)`: the call through the function pointer (`r` = oracle value standing for its return) -/
+def callEv (f : BitVec 64) (p r : Val) : Event := .ext "(*)" [wv f, p] r
+
+/-- outcome of one iteration of the loop of `rcu_defer_barrier_queue` started with `i ≠ head` -/
+structure Iter where
+  events : List Event
+  i : Nat
+  lo : BitVec 64
+  inp : List Val
+  done : Bool     -- `false`: the oracle ran out (run blocked inside the iteration)
+
+/-- one iteration on the oracle `inp`: `rmb`, 1–3 slot loads decoded as `Codec.dec1` does, the call -/
+def iterSpec (base : Loc) (i : Nat) (lo : BitVec 64) : List Val → Iter
+  | [] => ⟨[.fence .rmb], i, lo, [], false⟩
+  | v0 :: r0 =>
+    if isFct (vw v0) then
+      match r0 with
+      | [] => ⟨[.fence .rmb, ldq base i v0], i + 1, clrFct (vw v0), [], false⟩
+      | v1 :: [] => ⟨[.fence .rmb, ldq base i v0, ldq base (i + 1) v1], i + 2, clrFct (vw v0), [], false⟩
+      | v1 :: rv :: r2 =>
+        ⟨[.fence .rmb, ldq base i v0, ldq base (i + 1) v1, callEv (clrFct (vw v0)) v1 rv], i + 2, clrFct (vw v0), r2, true⟩
+    else if vw v0 == fctMark then
+      match r0 with
+      | [] => ⟨[.fence .rmb, ldq base i v0], i + 1, lo, [], false⟩
+      | v1 :: [] => ⟨[.fence .rmb, ldq base i v0, ldq base (i + 1) v1], i + 2, vw v1, [], false⟩
+      | v1 :: v2 :: [] =>
+        ⟨[.fence .rmb, ldq base i v0, ldq base (i + 1) v1, ldq base (i + 2) v2], i + 3, vw v1, [], false⟩
+      | v1 :: v2 :: rv :: r3 =>
+        ⟨[.fence .rmb, ldq base i v0, ldq base (i + 1) v1, ldq base (i + 2) v2, callEv (vw v1) v2 rv], i + 3, vw v1, r3, true⟩
+    else
+      match r0 with
+      | [] => ⟨[.fence .rmb, ldq base i v0], i + 1, lo, [], false⟩
+      | rv :: r1 => ⟨[.fence .rmb, ldq base i v0, callEv lo v0 rv], i + 1, lo, r1, true⟩
+
+/-- the loop body of the generated function -/
+def cbody : Stmt := match Gen.Src.«rcu_defer_barrier_queue» with
+  | .seq _ (.seq (.loop b) _) => b
+  | _ => .skip
+
+/-- the generated function is `i = queue->tail; for (;;) cbody; cmm_smp_mb(); uatomic_store(&queue->tail, i)` -/
+theorem cons_shape : Gen.Src.«rcu_defer_barrier_queue» =
+    .seq (.assign "i" (.pload (.fieldAddr (.var "queue") "tail"))) (.seq (.loop cbody)
+      (.seq (.prim none .mb []) (.prim none .ustore [.fieldAddr (.var "queue") "tail", .var "i", .cst "CMM_RELAXED" 0]))) := rfl
+
+/-- what one run of the loop body guarantees -/
+def IterPost (base : Loc) (env : Env) (it : Iter) (o : Out) : Prop :=
+  o.events = it.events ∧ o.inp = it.inp ∧
+  (it.done = false → o.ctl = .blocked) ∧
+  (it.done = true → o.ctl = .normal ∧ o.env.vars "i" = some (.int (it.i : Int)) ∧ o.env.vars "head" = env.vars "head" ∧
+    o.env.vars "queue" = env.vars "queue" ∧ o.env.priv (.field base "last_fct_out") = some (wv it.lo) ∧
+    ∀ l, l ≠ .field base "last_fct_out" → o.env.priv l = env.priv l)
+
+theorem cbody_iter (fuel : Nat) (env : Env) (base : Loc) (i H : Nat) (lo : BitVec 64) (inp : List Val)
+    (hq : env.vars "queue" = some (.ptr base)) (hi : env.vars "i" = some (.int (i : Int)))
+    (hH : env.vars "head" = some (.int (H : Int))) (hlo : env.priv (.field base "last_fct_out") = some (wv lo))
+    (hne : i ≠ H) (hw : WordInp inp) :
+    ∃ o, exec fuel cbody env inp = .ok o ∧ IterPost base env (iterSpec base i lo inp) o := by
+  have hne' : ¬ ((i : Int) = H) := by omega
+  unfold cbody
+  simp only [Gen.Src.«rcu_defer_barrier_queue», block]
+  match inp, hw with
+  | [], _ =>
+    exec_simp [IterPost, iterSpec, hq, hi, hH, hlo, hne']
+  | v0 :: r0, hw =>
+    obtain ⟨w0, rfl⟩ := hw v0 (by simp)
+    by_cases hf : isFct w0 = true
+    · match r0, hw with
+      | [], _ => exec_simp [IterPost, iterSpec, ldq, callEv, slot, hq, hi, hH, hlo, hne', hf]
+      | [v1], _ => exec_simp [IterPost, iterSpec, ldq, callEv, slot, hq, hi, hH, hlo, hne', hf]
+      | v1 :: rv :: r2, hw =>
+        obtain ⟨w1, rfl⟩ := hw v1 (by simp)
+        exec_simp [IterPost, iterSpec, ldq, callEv, slot, hq, hi, hH, hlo, hne', hf]
+        exact ⟨by omega, fun l h1 h2 => absurd h2 h1⟩
+    · have hf' : isFct w0 = false := by simpa using hf
+      by_cases hm : w0 = fctMark
+      · match r0, hw with
+        | [], _ => exec_simp [IterPost, iterSpec, ldq, callEv, slot, hq, hi, hH, hlo, hne', hf', hm, isFct_fctMark]
+        | [v1], _ => exec_simp [IterPost, iterSpec, ldq, callEv, slot, hq, hi, hH, hlo, hne', hf', hm, isFct_fctMark]
+        | [v1, v2], _ =>
+          exec_simp [IterPost, iterSpec, ldq, callEv, slot, hq, hi, hH, hlo, hne', hf', hm, isFct_fctMark]
+          congr 2
+        | v1 :: v2 :: rv :: r3, hw =>
+          obtain ⟨w1, rfl⟩ := hw v1 (by simp)
+          obtain ⟨w2, rfl⟩ := hw v2 (by simp)
+          exec_simp [IterPost, iterSpec, ldq, callEv, slot, hq, hi, hH, hlo, hne', hf', hm, isFct_fctMark]
+          exact ⟨by congr 2, by omega, fun l h1 h2 => absurd h2 h1⟩
+      · match r0, hw with
+        | [], _ => exec_simp [IterPost, iterSpec, ldq, callEv, slot, hq, hi, hH, hlo, hne', hf', hm, isFct_fctMark]
+        | rv :: r1, hw =>
+          exec_simp [IterPost, iterSpec, ldq, callEv, slot, hq, hi, hH, hlo, hne', hf', hm, isFct_fctMark]
+
+theorem cbody_brk (fuel : Nat) (env : Env) (H : Nat) (inp : List Val)
+    (hi : env.vars "i" = some (.int (H : Int))) (hH : env.vars "head" = some (.int (H : Int))) :
+    exec fuel cbody env inp = .ok ⟨[], env, inp, .brk⟩ := by
+  unfold cbody
+  simp only [Gen.Src.«rcu_defer_barrier_queue», block]
+  exec_simp [hi, hH]
+
+theorem iterSpec_inp_sub (base : Loc) (i : Nat) (lo : BitVec 64) (inp : List Val) :
+    ∀ v ∈ (iterSpec base i lo inp).inp, v ∈ inp := by
+  intro v
+  unfold iterSpec
+  split
+  · simp
+  · split
+    · split <;> simp <;> intro h <;> simp [h]
+    · split
+      · split <;> simp <;> intro h <;> simp [h]
+      · split <;> simp <;> intro h <;> simp [h]
+
+/-- outcome of the loop of `rcu_defer_barrier_queue` -/
+structure Cons where
+  events : List Event
+  i : Nat
+  lo : BitVec 64
+  inp : List Val
+  ctl : Ctl
+
+/-- the loop on the oracle `inp` with budget `n`, from counter `i` and `last_fct_out = lo` (`Ring.runLoop`, driven by the
+oracle instead of the ring) -/
+def loopSpec (base : Loc) (H : Nat) : Nat → Nat → BitVec 64 → List Val → List Event → Cons
+  | 0, i, lo, inp, acc => ⟨acc, i, lo, inp, .fuel⟩
+  | n + 1, i, lo, inp, acc =>
+    if i = H then ⟨acc, i, lo, inp, .normal⟩ else
+    if (iterSpec base i lo inp).done then
+      loopSpec base H n (iterSpec base i lo inp).i (iterSpec base i lo inp).lo (iterSpec base i lo inp).inp
+        (acc ++ (iterSpec base i lo inp).events)
+    else ⟨acc ++ (iterSpec base i lo inp).events, (iterSpec base i lo inp).i, (iterSpec base i lo inp).lo,
+      (iterSpec base i lo inp).inp, .blocked⟩
+
+theorem loopSpec_normal_i (base : Loc) (H : Nat) : ∀ (n i : Nat) (lo : BitVec 64) (inp : List Val) (acc : List Event),
+    (loopSpec base H n i lo inp acc).ctl = .normal → (loopSpec base H n i lo inp acc).i = H := by
+  intro n
+  induction n with
+  | zero => intro i lo inp acc h; simp [loopSpec] at h
+  | succ n ih =>
+    intro i lo inp acc h
+    unfold loopSpec at h ⊢
+    split
+    · assumption
+    · rename_i hne
+      simp only [hne, if_false] at h
+      split
+      · rename_i hd
+        simp only [hd, if_true] at h
+        exact ih _ _ _ _ h
+      · rename_i hd
+        simp [hd] at h
+
+/-- what the loop guarantees -/
+def LoopPost (base : Loc) (env : Env) (S : Cons) (o : Out) : Prop :=
+  o.events = S.events ∧ o.inp = S.inp ∧ o.ctl = S.ctl ∧
+  (S.ctl = .normal → o.env.vars "i" = some (.int (S.i : Int)) ∧ o.env.vars "queue" = env.vars "queue" ∧
+    o.env.priv (.field base "last_fct_out") = some (wv S.lo) ∧
+    ∀ l, l ≠ .field base "last_fct_out" → o.env.priv l = env.priv l)
+
+theorem loop_exec (fuel : Nat) (base : Loc) (H : Nat) : ∀ (n : Nat) (env : Env) (i : Nat) (lo : BitVec 64) (inp : List Val)
+    (acc : List Event),
+    env.vars "queue" = some (.ptr base) → env.vars "i" = some (.int (i : Int)) →
+    env.vars "head" = some (.int (H : Int)) → env.priv (.field base "last_fct_out") = some (wv lo) → WordInp inp →
+    ∃ o, iterate (fun e i => exec fuel cbody e i) n env inp acc = .ok o ∧
+      LoopPost base env (loopSpec base H n i lo inp acc) o := by
+  intro n
+  induction n with
+  | zero =>
+    intro env i lo inp acc hq hi hH hlo hw
+    simp [iterate, loopSpec, LoopPost]
+  | succ n ih =>
+    intro env i lo inp acc hq hi hH hlo hw
+    by_cases hiH : i = H
+    · subst hiH
+      simp [iterate, loopSpec, LoopPost, cbody_brk fuel env i inp hi hH, bind, Except.bind, hi, hlo]
+    · obtain ⟨o, ho, he, hinp, hnd, hd⟩ := cbody_iter fuel env base i H lo inp hq hi hH hlo hiH hw
+      simp only [iterate, bind, Except.bind, ho, loopSpec, hiH, if_false]
+      by_cases hdone : (iterSpec base i lo inp).done = true
+      · obtain ⟨hc, h1, h2, h3, h4, h5⟩ := hd hdone
+        simp only [hc, hdone, if_true]
+        have hw' : WordInp o.inp := by
+          intro v hv; rw [hinp] at hv; exact hw v (iterSpec_inp_sub base i lo inp v hv)
+        obtain ⟨o2, ho2, e1, e2, e3, e4⟩ := ih o.env (iterSpec base i lo inp).i (iterSpec base i lo inp).lo o.inp
+          (acc ++ o.events) (by rw [h3, hq]) h1 (by rw [h2, hH]) h4 hw'
+        rw [← hinp, ← he]
+        refine ⟨o2, ho2, e1, e2, e3, ?_⟩
+        intro hn
+        obtain ⟨a1, a2, a3, a4⟩ := e4 hn
+        refine ⟨a1, by rw [a2, h3], a3, ?_⟩
+        intro l hl; rw [a4 l hl, h5 l hl]
+      · have hdone' : (iterSpec base i lo inp).done = false := by simpa using hdone
+        have hc := hnd hdone'
+        simp [hc, hdone', LoopPost, he, hinp]
+
+/-- **`rcu_defer_barrier_queue(queue, head)`**: for every budget and every oracle of words, the run is the loop
+`loopSpec` from `i = queue->tail`, followed (when the loop ended by `i == head`) by `cmm_smp_mb()` and the store of `tail` -/
+theorem cons_exec (fuel : Nat) (env : Env) (base : Loc) (T H : Nat) (lo : BitVec 64) (inp : List Val)
+    (hq : env.vars "queue" = some (.ptr base)) (hH : env.vars "head" = some (.int (H : Int)))
+    (hT : env.priv (.field base "tail") = some (.int (T : Int)))
+    (hlo : env.priv (.field base "last_fct_out") = some (wv lo)) (hw : WordInp inp) :
+    ∃ o, exec fuel Gen.Src.«rcu_defer_barrier_queue» env inp = .ok o ∧
+      o.inp = (loopSpec base H fuel T lo inp []).inp ∧
+      ((loopSpec base H fuel T lo inp []).ctl = .normal →
+        o.events = (loopSpec base H fuel T lo inp []).events ++ [.fence .mb, .st (.field base "tail") (.int (H : Int)) 0] ∧
+        o.ctl = .normal ∧ (loopSpec base H fuel T lo inp []).i = H ∧
+        o.env.priv (.field base "tail") = some (.int (H : Int)) ∧
+        o.env.priv (.field base "last_fct_out") = some (wv (loopSpec base H fuel T lo inp []).lo) ∧
+        ∀ l, l ≠ .field base "last_fct_out" → l ≠ .field base "tail" → o.env.priv l = env.priv l) ∧
+      ((loopSpec base H fuel T lo inp []).ctl ≠ .normal →
+        o.events = (loopSpec base H fuel T lo inp []).events ∧ o.ctl = (loopSpec base H fuel T lo inp []).ctl) := by
+  rw [cons_shape]
+  obtain ⟨o, ho, e1, e2, e3, e4⟩ := loop_exec fuel base H fuel
+    { vars := fun y => if y = "i" then some (.int (T : Int)) else env.vars y, priv := env.priv } T lo inp []
+    (by simp [hq]) (by simp) (by simp [hH]) hlo hw
+  by_cases hn : (loopSpec base H fuel T lo inp []).ctl = .normal
+  · obtain ⟨a1, a2, a3, a4⟩ := e4 hn
+    rw [hn] at e3
+    have hiH := loopSpec_normal_i base H fuel T lo inp [] hn
+    exec_simp [hq, hT, ho, e3, a1, a2, hn]
+    refine ⟨e2, by rw [e1, hiH], hiH, by rw [hiH], a3, ?_⟩
+    intro l h1 h2
+    simp only [h2, if_false]
+    exact a4 l h1
+  · exec_simp [hq, hT, ho, e3, hn]
+    exact ⟨e2, e1⟩
 
 end UrcuVerif.Src.DeferR
